@@ -335,3 +335,9 @@ func (r *Run) Serial(fn func(w *W)) {
 	fn(w)
 	w.flush()
 }
+
+// SpecialWords are texts that conventions of other layers give a meaning ("no value", "default", a JSON literal, a
+// database NULL, a number's special values): a shortcut for one of them in a single entry point is a plausible slip
+// that no grammar-derived alphabet contains. Checks feed them to every input path next to the 1-deviation mutants.
+var SpecialWords = []string{"null", "NULL", "Null", "nil", "none", "None", "undefined", "true", "false", "nan", "NaN", "inf", "-", "+", ".", "..", "*", "?", "x", "latest", "now", "today", "zero", "default", "auto",
+	"\"\"", "''", "{}", "[]", "0", "-0", "+0", "00", "0x0", "0.0", "1e0", "\x00", " ", "\n", "\r\n", "\t", "\ufeff", "N/A", "n/a", "#", "~", "_", "unknown", "max", "min", "any"}
